@@ -18,3 +18,18 @@ BUILT['C11'] = {
     'level': 'Runtime monitoring: every tree shape with up to 4 (thorough 5) containers under every map/list and unmarked/true/false assignment, plus random larger trees and streams, is evaluated by the real library three times; the multiset of output documents must equal the model\'s selected subtrees with hidden parts cut and markers stripped; output order must be stable and follow document order. Exhaustive only for the swept sub-space.',
     'note': 'Trusted: $output model (harness/bv/model.py). Not judged: marked map as a direct list entry (code reports extra keys), list with both marker entries, order within one document beyond stability.',
 }
+BUILT['C02'] = {
+    'technique': 'reference stream-model monitor + hook event log (merge/append events) + isolation re-run with the real merge (in-process worker, file/CLI sample)',
+    'level': 'Runtime monitoring: generated histories (base stream + 1-3 layers, document-level $match in all its outcomes) run through the real Parser with the verif event hook on; the recorded merge/append events must be exactly the targets the documented selection rules give, Documents() after every layer must equal a purely functional stream model, and every final document is recomputed alone in a fresh parser with the real merge. Holds for the histories produced only.',
+    'note': 'Trusted: stream/merge/match model, the verifEvent hook (merge.go mergeDocs, parser.go append). A history ends at the first rejected layer document (state after a failed merge is unspecified).',
+}
+BUILT['C17'] = {
+    'technique': 'process-boundary reference-model monitor for bklr (skeleton model, idempotence re-run, agreement with bkl library error class and binary status)',
+    'level': 'Runtime monitoring: generated single-document layer chains in mixed formats (plus all $required placements on four small shapes) are given to the real bklr binary; its decoded output must equal the model skeleton of the model-merged input, be empty iff no marker remains, be a fixed point of bklr, and bkl must refuse with the required-field error exactly when the skeleton is non-empty. Holds for the executions produced only.',
+    'note': 'Trusted: merge + skeleton models, own serializers (validated against independent decoders), PyYAML core-schema/json decoders.',
+}
+BUILT['C19'] = {
+    'technique': 'history monitor with before/after snapshots, repeated calls and a replayed control parser (in-process worker)',
+    'level': 'Runtime monitoring: generated API histories (merges and layers interleaved with Documents/Output/OutputDocuments/OutputToWriter in several formats) over directive-rich documents; Documents() must be identical before and after every output call, a repeated output call must return identical bytes, and a control parser replaying only the merges must end with the same documents, merge statuses and outputs. Holds for the histories produced only.',
+    'note': 'Trusted: worker snapshot encoding of Documents(). Comparison with the control stops at the first failed merge (partial merges are order-dependent by themselves).',
+}
